@@ -285,6 +285,13 @@ def run_switch(spec, out):
             out.maxi("max_restart_equivalence_relerr", e)
             if not (e <= XT) and tr.cb[ks]["snap"]["sk"].shape[0] > P0.n:
                 out.count("skipped_rank_deficient_memory")
+            elif not (e <= XT) and (probes.grazes_bound(st.x, P0.lb, P0.ub) or probes.rounding_sensitive(
+                    lambda ck: probes.run_min(PB, dict(cfg, maxiter=nit + 1, cb=None), checkpoint=ck, x0=np.array(st.x, dtype=float, copy=True)),
+                    st, rs.snap["x"], XT, seed=spec.get("vseed", 0), trials=6)):
+                # a discrete decision of the step (active set, maximum feasible step) sits within rounding distance of its
+                # threshold: the live run's matrices and the restart's (rebuilt from differences) differ in the last bits only,
+                # yet the steps differ. Not a finding (DESIGN.md 4.4 / 10.4)
+                out.count("skipped_rounding_sensitive_step")
             elif not (e <= XT):
                 out.violate("continuation_differs_from_restart_on_new_objective", f"{name}: iterate {nit + 1} of the live run differs by {e:.3e} (relative) "
                             f"from the first iterate of a restart on f_B from the state of iteration {nit}: the matrices the live run used are "
